@@ -76,9 +76,10 @@ Definition dbst := option (bstate * bool).
 
 (* own: the command arrives on the session that started the branch (a session
    runs one branch); detach: the server frees the session at PREPARE (>= 8.0.29) *)
-Definition srv_step (detach : bool) (d : dbst) (own : bool) (c : cmd) : res * dbst :=
+Definition srv_step (detach : bool) (d : dbst) (own busy : bool) (c : cmd) : res * dbst :=
   match c with
-  | START => match d with None => (ROk, Some (Active, true)) | Some _ => (RDupid, d) end
+  | START => if busy then (RRmfail, d)   (* the session is still bound to another branch *)
+             else match d with None => (ROk, Some (Active, true)) | Some _ => (RDupid, d) end
   | STMT => match d with
             | Some (Active, true) => (ROk, d)
             | _ => (RRmfail, d)
@@ -97,13 +98,13 @@ Definition srv_step (detach : bool) (d : dbst) (own : bool) (c : cmd) : res * db
               | None => (RNota, d)
               | Some (s, true) => if own then match s with Prepared => (ROk, None) | _ => (RRmfail, d) end
                                   else (RNota, d)
-              | Some (_, false) => (ROk, None)
+              | Some (_, false) => if busy then (RRmfail, d) else (ROk, None)
               end
   | ROLLBACK => match d with
                 | None => (RNota, d)
                 | Some (s, true) => if own then match s with Active => (RRmfail, d) | _ => (ROk, None) end
                                     else (RNota, d)
-                | Some (_, false) => (ROk, None)
+                | Some (_, false) => if busy then (RRmfail, d) else (ROk, None)
                 end
   end.
 
@@ -129,9 +130,12 @@ Inductive ev :=
 Inductive ores := OSkipped | OOk | OErr | OP2 (done : bool).
 
 Inductive op :=
-| OAuto (g : nat)                                  (* autocommit statement of global tx g, fresh connection *)
+| OAuto (g : nat) (via : option nat) (slow : bool)
+    (* autocommit statement of global tx g; via = Some t: on the connection of op #t, taken back out
+       of the pool (ResetSession), else on a fresh connection; slow: the statement outlasts the
+       XA branch execution timeout *)
 | OLocal                                           (* statement outside any global tx, fresh connection *)
-| OPhase2 (target : nat) (commit stranger : bool)  (* phase two for the branch created by op #target *)
+| OPhase2 (target : nat) (commit stranger : bool)  (* phase two for the branch registered by op #target *)
 | ONop.
 
 Record env := {
@@ -145,48 +149,67 @@ Record env := {
 Record br := {
   r_op : nat; r_xid : bytes; r_b : N; r_conn : nat;
   r_db : dbst;      (* server-side state of xa_id r_xid r_b *)
-  r_kept : bool;    (* the keeper of the DBResource maps the identifier to this connection *)
-  r_fin : bool      (* phase two was delivered *)
+  r_kept : bool;    (* the keeper of the DBResource has an entry for the identifier (-> r_conn) *)
+  r_fin : bool;     (* phase two was delivered *)
+  r_sfail : bool    (* registered, but XA START was not accepted *)
 }.
+
+(* XAConn fields that outlive a statement on a pooled connection *)
+Record cst := {
+  c_active : bool;        (* xaActive *)
+  c_kept : bool;          (* isConnKept *)
+  c_cur : option nat      (* xaBranchXid: the branch (by op index) it names; None = nil *)
+}.
+Definition cst0 : cst := {| c_active := false; c_kept := false; c_cur := None |}.
 
 Record st := {
   s_brs : list br;
   s_nreg : nat; s_nconn : nat; s_nop : nat;
   s_cnt : cmd -> nat;
   s_jour : list ev;     (* newest first *)
-  s_out : list ores     (* newest first *)
+  s_out : list ores;    (* newest first *)
+  s_conns : list (nat * cst);   (* newest binding first *)
+  s_opconn : list (nat * nat)   (* op index -> connection its statement ran on *)
 }.
 
 Definition init : st :=
   {| s_brs := []; s_nreg := 0; s_nconn := 1 (* #0 is the version probe of sql.Open *); s_nop := 0;
-     s_cnt := fun _ => 0%nat; s_jour := []; s_out := [] |}.
+     s_cnt := fun _ => 0%nat; s_jour := []; s_out := []; s_conns := []; s_opconn := [] |}.
 
 Definition add_ev (s : st) (e : ev) : st :=
   {| s_brs := s_brs s; s_nreg := s_nreg s; s_nconn := s_nconn s; s_nop := s_nop s; s_cnt := s_cnt s;
-     s_jour := e :: s_jour s; s_out := s_out s |}.
-Definition set_cnt (s : st) (f : cmd -> nat) : st :=
-  {| s_brs := s_brs s; s_nreg := s_nreg s; s_nconn := s_nconn s; s_nop := s_nop s; s_cnt := f;
-     s_jour := s_jour s; s_out := s_out s |}.
+     s_jour := e :: s_jour s; s_out := s_out s; s_conns := s_conns s; s_opconn := s_opconn s |}.
 Definition set_brs (s : st) (l : list br) : st :=
   {| s_brs := l; s_nreg := s_nreg s; s_nconn := s_nconn s; s_nop := s_nop s; s_cnt := s_cnt s;
-     s_jour := s_jour s; s_out := s_out s |}.
+     s_jour := s_jour s; s_out := s_out s; s_conns := s_conns s; s_opconn := s_opconn s |}.
 Definition bump_conn (s : st) : st :=
   {| s_brs := s_brs s; s_nreg := s_nreg s; s_nconn := S (s_nconn s); s_nop := s_nop s; s_cnt := s_cnt s;
-     s_jour := s_jour s; s_out := s_out s |}.
+     s_jour := s_jour s; s_out := s_out s; s_conns := s_conns s; s_opconn := s_opconn s |}.
 Definition bump_reg (s : st) : st :=
   {| s_brs := s_brs s; s_nreg := S (s_nreg s); s_nconn := s_nconn s; s_nop := s_nop s; s_cnt := s_cnt s;
-     s_jour := s_jour s; s_out := s_out s |}.
+     s_jour := s_jour s; s_out := s_out s; s_conns := s_conns s; s_opconn := s_opconn s |}.
+Definition set_conn (s : st) (c : nat) (x : cst) : st :=
+  {| s_brs := s_brs s; s_nreg := s_nreg s; s_nconn := s_nconn s; s_nop := s_nop s; s_cnt := s_cnt s;
+     s_jour := s_jour s; s_out := s_out s; s_conns := (c, x) :: s_conns s; s_opconn := s_opconn s |}.
+Definition set_opconn (s : st) (c : nat) : st :=
+  {| s_brs := s_brs s; s_nreg := s_nreg s; s_nconn := s_nconn s; s_nop := s_nop s; s_cnt := s_cnt s;
+     s_jour := s_jour s; s_out := s_out s; s_conns := s_conns s; s_opconn := (s_nop s, c) :: s_opconn s |}.
 (* the op is over: record its outcome *)
 Definition finish (s : st) (o : ores) : st :=
   {| s_brs := s_brs s; s_nreg := s_nreg s; s_nconn := s_nconn s; s_nop := S (s_nop s); s_cnt := s_cnt s;
-     s_jour := s_jour s; s_out := o :: s_out s |}.
+     s_jour := s_jour s; s_out := o :: s_out s; s_conns := s_conns s; s_opconn := s_opconn s |}.
 
-Definition upd (f : cmd -> nat) (c : cmd) (v : nat) : cmd -> nat :=
-  fun c' => if cmd_eqb c' c then v else f c'.
+Fixpoint lookup {A} (k : nat) (l : list (nat * A)) : option A :=
+  match l with
+  | [] => None
+  | (k', v) :: l' => if Nat.eqb k' k then Some v else lookup k l'
+  end.
+Definition get_cst (s : st) (c : nat) : cst :=
+  match lookup c (s_conns s) with Some x => x | None => cst0 end.
 
 (* one command at the server: made to fail (no state change) or the state diagram *)
-Definition iss (detach f : bool) (d : dbst) (own : bool) (c : cmd) : res * dbst :=
-  if f then (RFault, d) else srv_step detach d own c.
+Definition iss (detach f : bool) (d : dbst) (own busy : bool) (c : cmd) : res * dbst :=
+  if f then (RFault, d) else srv_step detach d own busy c.
 
 Fixpoint count_cmd (c : cmd) (t : list (cmd * res)) : nat :=
   match t with
@@ -198,61 +221,94 @@ Fixpoint count_cmd (c : cmd) (t : list (cmd * res)) : nat :=
 Definition emit (s : st) (conn : nat) (id : bytes) (t : list (cmd * res)) : st :=
   {| s_brs := s_brs s; s_nreg := s_nreg s; s_nconn := s_nconn s; s_nop := s_nop s;
      s_cnt := fun c => (s_cnt s c + count_cmd c t)%nat;
-     s_jour := List.rev (map (fun cr => ESql conn (fst cr) id (snd cr)) t) ++ s_jour s; s_out := s_out s |}.
+     s_jour := List.rev (map (fun cr => ESql conn (fst cr) id (snd cr)) t) ++ s_jour s; s_out := s_out s;
+     s_conns := s_conns s; s_opconn := s_opconn s |}.
 
-Definition mk_br (o : nat) (xid : bytes) (b : N) (conn : nat) (d : dbst) (kept : bool) : br :=
-  {| r_op := o; r_xid := xid; r_b := b; r_conn := conn; r_db := d; r_kept := kept; r_fin := false |}.
+Definition mk_br (o : nat) (xid : bytes) (b : N) (conn : nat) (d : dbst) (kept sfail : bool) : br :=
+  {| r_op := o; r_xid := xid; r_b := b; r_conn := conn; r_db := d; r_kept := kept; r_fin := false; r_sfail := sfail |}.
 
-(* XAConn.ExecContext in a global transaction on a fresh autocommit connection, after the
-   accepted registration: BeginTx (keepIfNecessary, XA START), the statement, then
-   Commit (XA END, XA PREPARE; commitFailure: [XA END(fail)] XA ROLLBACK) or
-   Rollback (XA END(fail), XA ROLLBACK).  fS fM fE fE2 fP fR: is the next START / STMT /
-   END / second END / PREPARE / ROLLBACK made to fail.
-   Result: commands with results, server state of the branch, connection still held, outcome. *)
-Definition auto_local (detach fS fM fE fE2 fP fR : bool) : list (cmd * res) * dbst * bool * ores :=
-  let '(r1, d1) := iss detach fS None true START in
-  if negb (res_ok r1) then ([(START, r1)], d1, true, OErr)
+(* XAConn.ExecContext in a global transaction on an autocommit connection whose xaActive is
+   false, after the accepted registration: BeginTx (keepIfNecessary, XA START), the statement, then
+   Commit (XA END; checkTimeout: XA ROLLBACK and, through commitErrorHandle, XA ROLLBACK again;
+   XA PREPARE; commitFailure: [XA END(fail)] XA ROLLBACK) or Rollback (XA END(fail), XA ROLLBACK).
+   busy: the session still carries another branch; slow: the statement outlasted the branch
+   timeout; fS fM fE fE2 fP fR fR2: is the next START / STMT / END / second END / PREPARE /
+   ROLLBACK / second ROLLBACK made to fail.
+   Result: commands with results, server state of the branch, connection still held, outcome,
+   xaActive afterwards. *)
+Definition auto_local (detach busy slow fS fM fE fE2 fP fR fR2 : bool)
+  : list (cmd * res) * dbst * bool * ores * bool :=
+  let '(r1, d1) := iss detach fS None true busy START in
+  if negb (res_ok r1) then ([(START, r1)], d1, true, OErr, false)
   else
-    let '(r2, d2) := iss detach fM d1 true STMT in
+    let '(r2, d2) := iss detach fM d1 true false STMT in
     if negb (res_ok r2) then
-      let '(r3, d3) := iss detach fE d2 true END_ in
-      if negb (res_ok r3) then ([(START, r1); (STMT, r2); (END_, r3)], d3, true, OErr)
+      let '(r3, d3) := iss detach fE d2 true false END_ in
+      if negb (res_ok r3) then ([(START, r1); (STMT, r2); (END_, r3)], d3, true, OErr, true)
       else
-        let '(r4, d4) := iss detach fR d3 true ROLLBACK in
-        ([(START, r1); (STMT, r2); (END_, r3); (ROLLBACK, r4)], d4, false, OErr)
+        let '(r4, d4) := iss detach fR d3 true false ROLLBACK in
+        ([(START, r1); (STMT, r2); (END_, r3); (ROLLBACK, r4)], d4, false, OErr, false)
     else
-      let '(r3, d3) := iss detach fE d2 true END_ in
+      let '(r3, d3) := iss detach fE d2 true false END_ in
       if negb (res_ok r3) then
-        let '(r4, d4) := iss detach fE2 d3 true END_ in
-        let '(r5, d5) := iss detach fR d4 true ROLLBACK in
-        ([(START, r1); (STMT, r2); (END_, r3); (END_, r4); (ROLLBACK, r5)], d5, false, OErr)
+        let '(r4, d4) := iss detach fE2 d3 true false END_ in
+        let '(r5, d5) := iss detach fR d4 true false ROLLBACK in
+        ([(START, r1); (STMT, r2); (END_, r3); (END_, r4); (ROLLBACK, r5)], d5, false, OErr, false)
+      else if slow then
+        (* checkTimeout rolls back itself and reports; commitErrorHandle rolls back again and its
+           result is what Commit returns *)
+        let '(r4, d4) := iss detach fR d3 true false ROLLBACK in
+        let '(r5, d5) := iss detach fR2 d4 true false ROLLBACK in
+        ([(START, r1); (STMT, r2); (END_, r3); (ROLLBACK, r4); (ROLLBACK, r5)], d5, false,
+         if res_ok r5 then OOk else OErr, false)
       else
-        let '(r4, d4) := iss detach fP d3 true PREPARE in
+        let '(r4, d4) := iss detach fP d3 true false PREPARE in
         if negb (res_ok r4) then
-          let '(r5, d5) := iss detach fR d4 true ROLLBACK in
-          ([(START, r1); (STMT, r2); (END_, r3); (PREPARE, r4); (ROLLBACK, r5)], d5, false, OErr)
-        else ([(START, r1); (STMT, r2); (END_, r3); (PREPARE, r4)], d4, true, OOk).
+          let '(r5, d5) := iss detach fR d4 true false ROLLBACK in
+          ([(START, r1); (STMT, r2); (END_, r3); (PREPARE, r4); (ROLLBACK, r5)], d5, false, OErr, false)
+        else ([(START, r1); (STMT, r2); (END_, r3); (PREPARE, r4)], d4, true, OOk, true).
 
-Definition do_auto (E : env) (s0 : st) (g : nat) : st :=
+Definition attached (d : dbst) : bool := match d with Some (_, true) => true | _ => false end.
+(* the session of connection c is bound to a branch other than op #o's *)
+Definition busy_on (l : list br) (c o : nat) : bool :=
+  existsb (fun r => Nat.eqb (r_conn r) c && negb (Nat.eqb (r_op r) o) && attached (r_db r)) l.
+
+Definition start_ok (t : list (cmd * res)) : bool :=
+  match t with (START, ROk) :: _ => true | _ => false end.
+
+Definition do_auto (E : env) (s0 : st) (g : nat) (via : option nat) (slow : bool) : st :=
+  let reuse := match via with Some t => lookup t (s_opconn s0) | None => None end in
+  let conn := match reuse with Some c => c | None => s_nconn s0 end in
+  let s0' := match reuse with Some _ => s0 | None => bump_conn s0 end in
+  let s0' := set_opconn s0' conn in
+  let cs := get_cst s0 conn in
+  if c_active cs then
+    (* BeginTx: "should NEVER happen: ... xa branch is active" — before any registration *)
+    finish s0' OErr
+  else
   let k := s_nreg s0 in
-  let conn := s_nconn s0 in
   let xid := e_xid E g in
   let b := e_bid E k in
-  let s := bump_conn (bump_reg s0) in
-  if e_refuse E k then finish (add_ev s (EReg xid false 0)) OErr
+  let s := bump_reg s0' in
+  if e_refuse E k then
+    (* cleanXABranchContext *)
+    finish (set_conn (add_ev s (EReg xid false 0)) conn
+              {| c_active := false; c_kept := c_kept cs; c_cur := if c_kept cs then c_cur cs else None |}) OErr
   else
     let s := add_ev s (EReg xid true b) in
     let f := e_fault E in
     let cnt := s_cnt s in
-    let '(t, d, kept, o) :=
-      auto_local (e_detach E) (f START (cnt START)) (f STMT (cnt STMT)) (f END_ (cnt END_)) (f END_ (S (cnt END_)))
-                 (f PREPARE (cnt PREPARE)) (f ROLLBACK (cnt ROLLBACK)) in
+    let '(t, d, kept, o, act) :=
+      auto_local (e_detach E) (busy_on (s_brs s) conn (s_nop s)) slow
+                 (f START (cnt START)) (f STMT (cnt STMT)) (f END_ (cnt END_)) (f END_ (S (cnt END_)))
+                 (f PREPARE (cnt PREPARE)) (f ROLLBACK (cnt ROLLBACK)) (f ROLLBACK (S (cnt ROLLBACK))) in
     let s := emit s conn (xa_id xid b) t in
-    finish (set_brs s (mk_br (s_nop s) xid b conn d kept :: s_brs s)) o.
+    let s := set_conn s conn {| c_active := act; c_kept := kept; c_cur := if kept then Some (s_nop s) else None |} in
+    finish (set_brs s (mk_br (s_nop s) xid b conn d kept (negb (start_ok t)) :: s_brs s)) o.
 
 Definition do_local (E : env) (s0 : st) : st :=
   let conn := s_nconn s0 in
-  let s := bump_conn s0 in
+  let s := set_opconn (bump_conn s0) conn in
   let r := if e_fault E STMT (s_cnt s STMT) then RFault else ROk in
   finish (emit s conn [] [(STMT, r)]) (if res_ok r then OOk else OErr).
 
@@ -262,45 +318,59 @@ Fixpoint find_br (t : nat) (l : list br) : option br :=
   | r :: l' => if Nat.eqb (r_op r) t then Some r else find_br t l'
   end.
 
-Fixpoint put_br (r' : br) (l : list br) : list br :=
-  match l with
-  | [] => []
-  | r :: l' => if Nat.eqb (r_op r) (r_op r') then r' :: l' else r :: put_br r' l'
-  end.
+Definition upd_br (f : br -> br) (o : nat) (l : list br) : list br :=
+  map (fun r => if Nat.eqb (r_op r) o then f r else r) l.
+Definition set_db_kept (d : dbst) (kept fin : bool) (r : br) : br :=
+  {| r_op := r_op r; r_xid := r_xid r; r_b := r_b r; r_conn := r_conn r;
+     r_db := d; r_kept := kept; r_fin := fin; r_sfail := r_sfail r |}.
+Definition unkeep (r : br) : br := set_db_kept (r_db r) false (r_fin r) r.
+(* the session of connection c is dropped by the server *)
+Definition kill_conn (c : nat) (l : list br) : list br :=
+  map (fun r => if Nat.eqb (r_conn r) c then set_db_kept (srv_kill (r_db r)) (r_kept r) (r_fin r) r else r) l.
 
-(* phase two at the server: stranger = the phase-one process is gone (its session is
-   dropped, nobody holds the connection); the command arrives on the held connection
-   (kept) or on a new one *)
-Definition p2_local (detach f : bool) (d : dbst) (kept commit stranger : bool) : (cmd * res) * dbst * bool :=
-  let d1 := if stranger then srv_kill d else d in
-  let kept1 := if stranger then false else kept in
+(* phase two at the server for one branch: the command arrives on the connection the keeper
+   names (own = it is the one that started the branch) or on a new one *)
+Definition p2_local (detach f : bool) (d : dbst) (kept busy commit : bool) : (cmd * res) * dbst :=
   let c := if commit then COMMIT else ROLLBACK in
-  let rd := iss detach f d1 kept1 c in
-  ((c, fst rd), snd rd, kept1).
+  let rd := iss detach f d kept busy c in
+  ((c, fst rd), snd rd).
 
-(* XAResourceManager.BranchCommit / BranchRollback for (r_xid, r_b) of op #t;
-   the identifier is rebuilt from the request: xaIDBuilder(xid, branch id) *)
+(* XAResourceManager.BranchCommit / BranchRollback for (r_xid, r_b) of op #t; delivered to a
+   PREPARED branch, or (rollback) to a registered branch whose XA START failed; the identifier is
+   rebuilt from the request: xaIDBuilder(xid, branch id); ConnectionForXA: the keeper's
+   connection or a new one; afterwards THAT connection's releaseIfNecessary (which releases the
+   keeper entry of the identifier the connection currently carries) *)
 Definition do_p2 (E : env) (s : st) (t : nat) (commit stranger : bool) : st :=
   match find_br t (s_brs s) with
   | None => finish s OSkipped
   | Some r =>
-    if is_prepared (r_db r) && negb (r_fin r) then
+    if (is_prepared (r_db r) || (negb commit && r_sfail r)) && negb (r_fin r) then
       let id := xa_id (r_xid r) (r_b r) in
       let c := if commit then COMMIT else ROLLBACK in
-      let '(cr, d, kept1) := p2_local (e_detach E) (e_fault E c (s_cnt s c)) (r_db r) (r_kept r) commit stranger in
-      let s := if stranger then add_ev s (EKill (r_conn r)) else s in
-      let conn := if kept1 then r_conn r else s_nconn s in
-      let s := if kept1 then s else bump_conn s in
+      let strg := stranger && is_prepared (r_db r) in
+      (* stranger: the phase-one process is gone: session dropped, nobody holds the connection *)
+      let s := if strg then set_brs (add_ev s (EKill (r_conn r))) (upd_br unkeep t (kill_conn (r_conn r) (s_brs s))) else s in
+      let d := if strg then srv_kill (r_db r) else r_db r in
+      let kept := if strg then false else r_kept r in
+      let conn := if kept then r_conn r else s_nconn s in
+      let busy := busy_on (s_brs s) conn t in
+      let '(cr, d') := p2_local (e_detach E) (e_fault E c (s_cnt s c)) d kept busy commit in
+      let s := if kept then s else bump_conn s in
       let s := emit s conn id [cr] in
-      let r' := {| r_op := r_op r; r_xid := r_xid r; r_b := r_b r; r_conn := r_conn r;
-                   r_db := d; r_kept := false; r_fin := true |} in
-      finish (set_brs s (put_br r' (s_brs s))) (OP2 (res_ok (snd cr)))
+      (* releaseIfNecessary of the serving XAConn *)
+      let cs := get_cst s conn in
+      let rel := if kept && c_kept cs then c_cur cs else None in
+      let s := if kept && c_kept cs
+               then set_conn s conn {| c_active := c_active cs; c_kept := false; c_cur := c_cur cs |} else s in
+      let l := upd_br (fun x => set_db_kept d' (r_kept x) true x) t (s_brs s) in
+      let l := match rel with Some o => upd_br unkeep o l | None => l end in
+      finish (set_brs s l) (OP2 (res_ok (snd cr)))
     else finish s OSkipped
   end.
 
 Definition step (E : env) (s : st) (o : op) : st :=
   match o with
-  | OAuto g => do_auto E s g
+  | OAuto g via slow => do_auto E s g via slow
   | OLocal => do_local E s
   | OPhase2 t c x => do_p2 E s t c x
   | ONop => finish s OSkipped
@@ -345,6 +415,13 @@ Fixpoint legal_from (s : sst) (t : list (cmd * res)) : option sst :=
     match sstep s c, r with
     | Some s', ROk => legal_from s' t'
     | Some _, RFault => legal_from s t'
+    | None, RNota | None, RFault =>
+        (* nothing to roll back: XA ROLLBACK of a branch that never started or is already
+           rolled back, answered XAER_NOTA (or made to fail), changes nothing (reading in docs/C17.md) *)
+        match c, s with
+        | ROLLBACK, S0 | ROLLBACK, SR => legal_from s t'
+        | _, _ => None
+        end
     | _, _ => None
     end
   end.
